@@ -6,6 +6,7 @@ CONSTANTS
   MaxTape = 4
   Chunks = {"c1"}
   AttrVals = {1}
+  RestartKinds = {0, 1}
   Handles = {"h1"}
   HandleFlags = {6, 10, 18}
   MaxContent = 2
